@@ -477,16 +477,31 @@ fn check_mutant(base: &Base, fam: Family, mutant: &str, layer: Layer, acc: &mut 
         Out::Err(e) => acc.bump(&format!("rejected:{}", e.short())),
         Out::Panic(_) => acc.bump("panic"),
     }
-    if let Judgement::Fail(kind, why) = judge(&base.case, &base.token, &pres, &obs, calls, true) {
+    let mut verdict = judge(&base.case, &base.token, &pres, &obs, calls, true);
+    // the small families are presented a second time straight away: a rejection must be repeatable (a failed
+    // attempt must not leave anything behind that lets the same text through afterwards)
+    let mut fam_name = fam.name().to_string();
+    if matches!(verdict, Judgement::Pass) && obs.is_err() && matches!(fam, Family::BitFlip | Family::Splice | Family::NonCanonical | Family::SigReencode | Family::FooterRespell | Family::BoundaryShift) {
+        let (obs2, calls2) = pres.present();
+        acc.executions += 1;
+        acc.impl_calls += 1;
+        if !obs2.is_err() {
+            if let Judgement::Fail(kind, why) = judge(&base.case, &base.token, &pres, &obs2, calls2, true) {
+                verdict = Judgement::Fail(kind, format!("rejected at first, but when the same text was presented again immediately: {}", why));
+                fam_name = format!("{}:retried", fam_name);
+            }
+        }
+    }
+    if let Judgement::Fail(kind, why) = verdict {
         let key = match &obs {
             // a panic is identified by where it happens (shared with C09's findings)
             Out::Panic(loc) => format!("C03|{}|{}|panic|{}", base.case.proto.name(), layer.name(), crate::adapter::panic_site(loc)),
-            _ => format!("C03|{}|{}|{}|{}", base.case.proto.name(), layer.name(), fam.name(), kind),
+            _ => format!("C03|{}|{}|{}|{}", base.case.proto.name(), layer.name(), fam_name, kind),
         };
         acc.violate(
             key,
-            format!("{} mutant presented to the {} layer: {}", fam.name(), layer.name(), why),
-            json!({"issue": base.case, "issued_token": base.token, "family": fam.name(), "presentation": pres,
+            format!("{} mutant presented to the {} layer: {}", fam_name, layer.name(), why),
+            json!({"issue": base.case, "issued_token": base.token, "family": fam_name, "presentation": pres,
                    "unit_test": crate::cases::unit_test_for(&pres, "r.is_err()", "a mutant of an authentic token: must be rejected (and with an authentication / format error)")}),
         );
     }
